@@ -5,7 +5,10 @@
    FN 1 mpz_set_str, decimal string of SL symbolic digits, tuning table with the DC / precomputed-power paths enabled at this length
    FN 2 mpz_get_str base 10 of a concrete UN-limb operand, DC / precomputed-power paths enabled
    FN 3 mpz_fib_ui / mpz_lucnum_ui beyond the table, n concrete
-   FN 4 mpz_gcdext on small symbolic operands */
+   FN 4 mpz_gcdext on small symbolic operands
+   FN 5 mpn_mul_n (SUB 0) / mpn_sqr (SUB 1) on NV limbs with the Karatsuba threshold of the tuning table lowered to 4 (a valid setting: the
+        algorithm accepts n >= 2), so that the fixed-size workspace path of mpn_mul_n/mpn_sqr and mpn_kara_*_n run at a size the solver can
+        take; lowest limb of the first operand symbolic, exact products; only the frame obligation matters here */
 #define VF_REC_ALLOC 1
 #define VF_ALLOC_BYTES 1
 #ifndef VF_MAXL
@@ -58,5 +61,13 @@ VF_MAIN_BEGIN
     mpz_gcdext (g, s, t, a, b);
     CHECK (vf_mpz_wf (g) && SIZ (g) == 1, "gcd positive"); CHECK (av % PTR (g)[0] == 0 && bv % PTR (g)[0] == 0, "gcd divides both operands");
     mpz_clear (g); mpz_clear (s); mpz_clear (t); mpz_clear (a); mpz_clear (b); CHECK (vf_live == 0, "no block held"); }
+#elif FN == 5
+  { static mp_limb_t a[NV], b[NV], r[2 * NV];
+    int i;
+    /* lowest limb of the first operand symbolic (all 2^64 values), the other limbs concrete corner values, exact products: with
+       uninterpreted products the unbounded carry loops of the interpolation (MPN_INCR_U) have spurious run-away counterexamples */
+    for (i = 0; i < NV; i++) { a[i] = i == 0 ? in64 () : VF_CORNER[(i * 5 + 1) % 16]; b[i] = VF_CORNER[(i * 3 + 2) % 16]; }
+    if (SUB == 0) mpn_mul_n (r, a, b, NV); else mpn_sqr (r, a, NV);
+    CHECK (VF_INC == 1, "operand drawn"); }
 #endif
 VF_MAIN_END
